@@ -102,16 +102,20 @@ var tokOffers = [4][]string{
 }
 var tokPoolsValid = [4][]string{
 	nil,
-	{"utf-8", "iso-8859-1", "us-ascii", "utf-16", "*", "UTF-8", "utf", "windows-1252"},
-	{"gzip", "br", "deflate", "identity", "compress", "*", "GZIP", "x-gzip", "zstd"},
-	{"en", "en-US", "en-GB", "fr", "fr-CA", "de", "*", "EN-us", "zh-Hant-TW", "zh-Hant", "zh", "e", "es"},
+	{"utf-8", "iso-8859-1", "us-ascii", "utf-16", "*", "UTF-8", "utf", "windows-1252", "\u017fhift_jis", "shift_jis"},
+	{"gzip", "br", "deflate", "identity", "compress", "*", "GZIP", "x-gzip", "zstd", "\u00b5-law", "gzi\u03c2"},
+	{"en", "en-US", "en-GB", "fr", "fr-CA", "de", "*", "EN-us", "zh-Hant-TW", "zh-Hant", "zh", "e", "es", "\u017fv", "sv", "\u017fv-FI", "sv-FI"},
 }
 var tokOffersValid = [4][]string{
 	nil,
-	{"utf-8", "iso-8859-1", "us-ascii", "utf-16", "UTF-8", " utf-8", "utf", "ascii"},
-	{"gzip", "br", "deflate", "identity", "compress", "GZIP", "gzip ", "x-gzip", "zstd"},
-	{"en", "en-US", "en-GB", "fr", "fr-CA", "de", "EN", "zh-Hant-TW", "zh", "es", " en"},
+	{"utf-8", "iso-8859-1", "us-ascii", "utf-16", "UTF-8", " utf-8", "utf", "ascii", "shift_jis", "Shift_JIS"},
+	{"gzip", "br", "deflate", "identity", "compress", "GZIP", "gzip ", "x-gzip", "zstd", "\u00b5-law", "gzis"},
+	{"en", "en-US", "en-GB", "fr", "fr-CA", "de", "EN", "zh-Hant-TW", "zh", "es", " en", "sv", "SV", "\u017fv"},
 }
+
+// Non-ASCII bytes in the pools are letters WITHOUT case mapping under strings.ToLower (long s, micro sign,
+// final sigma): for them Go's lower-casing is the identity, like the ASCII-only lower-casing of HTTP and
+// of the model. Upper-case non-ASCII letters are not generated (Go folds them, HTTP does not).
 var qValid = []string{"0", "1", "0.5", "0.9", "0.8", "0.7", "0.1", "0.001", "0.999", "1.0", "1.000", "0.0", "0.000", "0.50", "0.10", "0.01", "0.3", "0.30", "0.300"}
 var qOdd = []string{"0.", "1.", ".5", "0.5555", "1.5", "2", "-1", "abc", "", "1e-1", "0.50000", "+0.5", "00.5", "1.0000",
 	"0x1p-1", "5e-1", "NaN", "inf", "0,5", "1.001", "0.0000", "0.9999", "01", "1x", "0.5x", "00", "-0", "0.0001"}
